@@ -39,6 +39,7 @@ class LoopSpec:
     modifies: tuple = ()                     # extra havocked names (ghosts)
     setup: object = None                     # lambda(L, st) -> dict: spec functions for this loop (axioms -> st.hyps)
     after: object = None                     # lambda(L) -> [(lemma name, formula)] assumed at loop exit (trusted lemmas)
+    on_raise: object = None                  # lambda(L, st): ghost update when an iteration exits by an exception
 
 
 @dataclass
@@ -109,7 +110,9 @@ class State:
         self.hyps = hyps if hyps is not None else []
 
     def fork(self):
-        return State(dict(self.env), list(self.hyps))
+        s = State(dict(self.env), list(self.hyps))
+        s.rebound = set(getattr(self, "rebound", ()))
+        return s
 
 
 @dataclass
@@ -229,7 +232,7 @@ class Engine:
 
     def frame(self, st, tag, modifies=None):
         mods = self.c.modifies if modifies is None else modifies
-        for name in self.c.params:
+        for name in list(self.c.params) + [g for g in self.c.ghost if self.c.extra.get("frame_ghosts", True)]:
             cur, old = st.env[name], self.pre_env[name]
             if isinstance(cur, PyRec):
                 for f, v in cur.fields.items():
@@ -240,7 +243,7 @@ class Engine:
                         continue
                     self.emit(f"frame:{tag}:{name}.{f}", "frame", st, v.same(old.fields[f]), 0)
                 continue
-            if name in mods:
+            if name in mods or name in getattr(st, "rebound", ()):
                 continue
             if cur.ident(old):
                 self.trivial_frames = getattr(self, "trivial_frames", 0) + 1
@@ -370,6 +373,13 @@ class Engine:
                 names = _handler_names(h)
                 if names is None:
                     raise Unsupported("except clause form")
+                if out.exc == "UserError" and not ("Exception" in names or "BaseException" in names):
+                    # an exception of unknown class (user code): this handler may or may not catch it
+                    st3 = st2.fork()
+                    if h.name:
+                        st3.env[h.name] = PyExc(out.exc, out.value)
+                    res += self.exec_block(h.body, st3)
+                    continue
                 if out.exc in names or "Exception" in names or "BaseException" in names \
                         or any(self.reg.exc_subclass(out.exc, n) for n in names):
                     st3 = st2
@@ -433,6 +443,8 @@ class Engine:
             elif out.kind == "break":
                 exits.append((st2, Outcome("normal")))
             else:
+                if out.kind == "raise" and spec.on_raise:
+                    spec.on_raise(LV(k, st2.env), st2)
                 exits.append((st2, out))
         # --- after the loop (exhausted)
         end_st = st.fork()
@@ -521,6 +533,14 @@ class Engine:
     def assign(self, tgt, v, cx):
         st = cx.st
         if isinstance(tgt, ast.Name):
+            if tgt.id in self.c.params and tgt.id not in getattr(st, "rebound", ()) and tgt.id in st.env:
+                # a parameter NAME is rebound: the caller's object can no longer be reached through it.
+                # What was done to it so far is checked against the frame now.
+                cur, old = st.env[tgt.id], self.pre_env.get(tgt.id)
+                if old is not None and tgt.id not in self.c.modifies and not isinstance(cur, PyRec) \
+                        and not cur.ident(old):
+                    self.emit(f"frame:before-rebind:{tgt.id}", "frame", st, cur.same(old), getattr(tgt, "lineno", 0))
+                st.rebound = getattr(st, "rebound", set()) | {tgt.id}
             st.env[tgt.id] = v
         elif isinstance(tgt, (ast.Tuple, ast.List)):
             items = self.unpack(v, len(tgt.elts), cx)
@@ -855,7 +875,8 @@ class Engine:
         if hasattr(v, "py_iter"):
             return v.py_iter(cx)
         if isinstance(v, PyOpt):
-            raise Unsupported("iteration over Optional")
+            cx.raise_if(v.is_none, "TypeError")
+            return self.iterate(v.value, cx)
         raise Unsupported(f"iteration over {type(v).__name__}")
 
     # ---- exceptions ------------------------------------------------------------------
@@ -1288,7 +1309,14 @@ def _assigned_names(stmts, engine=None):
                             pn = list(c.params)
                             roots = {m.split(".", 1)[0] for m in c.modifies}
                             if pn and pn[0] in roots:
-                                out.add(r)
+                                if r == "self" and isinstance(f.value, ast.Name) and all(
+                                        "." in m for m in c.modifies if m.split(".", 1)[0] == pn[0]):
+                                    # self.method(...) whose contract names the fields it modifies
+                                    for m in c.modifies:
+                                        if m.split(".", 1)[0] == pn[0]:
+                                            out.add("self." + m.split(".", 1)[1])
+                                else:
+                                    out.add(r)
                             for ix, a in enumerate(n.args):
                                 ra = _root_name(a)
                                 if ra and ix + 1 < len(pn) and pn[ix + 1] in roots:
